@@ -343,7 +343,12 @@ func c05(p *P) {
 			r.Check(gk[0].Arg(1) == "$3.Justification", "C05.R6", "validateJustification: cache key covers the whole justification", p.c.InstrPos(gk[0].Instr), gk[0].Arg(1), "key is computed over "+gk[0].Arg(1))
 			// extra fields: exactly one, a slice of alloc A; signature verified with load(A); A's single store = *expected.Key
 			var keyAlloc *ssa.Alloc
-			extra := gk[0].ArgValues()[2]
+			var extra ssa.Value
+			if av := gk[0].ArgValues(); len(av) > 2 {
+				extra = av[2]
+			} else {
+				r.Fail("C05.R6", "validateJustification: cache key is bound to the expected value key", p.c.InstrPos(gk[0].Instr), "the cache key of a justification is computed from the justification alone — the value key it was verified against is not part of it")
+			}
 			if sl, ok := extra.(*ssa.Slice); ok {
 				if arr, ok := sl.X.(*ssa.Alloc); ok {
 					if els, ok := arrayElems(arr); ok && len(els) == 1 {
